@@ -237,10 +237,10 @@ def resolveMeta (extra builtin : Sp → SpMeta) (s : Sp) : Option (Int × Rat ×
 
 def eraseDupsSp (l : List Sp) : List Sp := l.foldl (fun acc s => if acc.contains s then acc else acc ++ [s]) []
 
-/-- `EAM_Potential_Builder._init_eampotentials`: element order is the `[EAM-Embed]` order followed by the
-    zero-filled species in the iteration order `extraOrder` of a Python `set` (an explicit parameter:
-    it is whatever the hash seed makes it). -/
-def eamBuild (embed dens : List (Sp × Fid)) (extraOrder : List Sp) (spMeta : Sp → Option (Int × Rat × Rat × String)) : Option (List El) :=
+/-- `EAM_Potential_Builder._init_eampotentials` with the iteration order of the zero-filled species as an explicit
+    parameter `extraOrder`.  At the pinned commit that order was the iteration order of a Python `set` (whatever the
+    hash seed made it); since the `fix:` commit it is `sorted(...)`, see `eamBuild`. -/
+def eamBuildWith (embed dens : List (Sp × Fid)) (extraOrder : List Sp) (spMeta : Sp → Option (Int × Rat × Rat × String)) : Option (List El) :=
   let embedKeys := eraseDupsSp (embed.map (·.1))
   let extras := extraOrder.filter fun s => (dens.map (·.1)).contains s && !embedKeys.contains s
   (embedKeys ++ extras).mapM fun s =>
@@ -250,9 +250,13 @@ def eamBuild (embed dens : List (Sp × Fid)) (extraOrder : List Sp) (spMeta : Sp
       some { sp := s, z := z, mass := m, a0 := a, lat := l, embed := (dictGet embed s).getD 0,
              dens := (dictGet dens s).getD 0, densTo := [] }
 
+/-- current behaviour: element order = `[EAM-Embed]` order followed by the zero-filled species in SORTED order -/
+def eamBuild (embed dens : List (Sp × Fid)) (spMeta : Sp → Option (Int × Rat × Rat × String)) : Option (List El) :=
+  eamBuildWith embed dens (sortSp (eraseDupsSp (dens.map (·.1)))) spMeta
+
 /-- `EAM_Potential_Builder_FS`: density species are the from- and to-species of every `A->B` entry;
     `dict[A][B]` for every pair over embed ∪ density species, zero when undeclared -/
-def eamBuildFS (embed : List (Sp × Fid)) (dens : List (Sp × Sp × Fid)) (extraOrder : List Sp)
+def eamBuildFSWith (embed : List (Sp × Fid)) (dens : List (Sp × Sp × Fid)) (extraOrder : List Sp)
     (spMeta : Sp → Option (Int × Rat × Rat × String)) : Option (List El) :=
   let embedKeys := eraseDupsSp (embed.map (·.1))
   let densSpecies := dens.flatMap fun d => [d.1, d.2.1]
@@ -267,5 +271,8 @@ def eamBuildFS (embed : List (Sp × Fid)) (dens : List (Sp × Sp × Fid)) (extra
                (o, match dens.find? (fun d => d.1 == s && d.2.1 == o) with
                    | some d => d.2.2
                    | none => 0) }
+
+def eamBuildFS (embed : List (Sp × Fid)) (dens : List (Sp × Sp × Fid)) (spMeta : Sp → Option (Int × Rat × Rat × String)) : Option (List El) :=
+  eamBuildFSWith embed dens (sortSp (eraseDupsSp (dens.flatMap fun d => [d.1, d.2.1]))) spMeta
 
 end Atsim
